@@ -301,8 +301,22 @@ func (l *websocketTransportListener) Close() error {
 	listErr := l.listener.Close()
 	srvErr := l.srv.Close()
 	l.srv = nil
+	l.closeQueued()
 
 	return multierr.Combine(listErr, srvErr)
+}
+
+// closeQueued closes the connections that were upgraded but not handed over
+// (the http server does not know them any more).
+func (l *websocketTransportListener) closeQueued() {
+	for {
+		select {
+		case conn := <-l.connChan:
+			_ = conn.Close()
+		default:
+			return
+		}
+	}
 }
 
 func (l *websocketTransportListener) ensureStarted() error {
@@ -324,6 +338,13 @@ func (l *websocketTransportListener) ServeHTTP(writer http.ResponseWriter, reque
 
 	select {
 	case <-l.done:
+		_ = conn.Close()
 	case l.connChan <- conn:
+		select {
+		case <-l.done:
+			// The listener was closed in the meantime: nobody will take the connection
+			l.closeQueued()
+		default:
+		}
 	}
 }
